@@ -50,10 +50,17 @@ func goTypeProjected(s node, v goVariant, pr projection, path string, rngPerm fu
 		if pr.perm {
 			order = rngPerm(len(kids))
 		}
+		var private []reflect.StructField
 		for _, i := range order {
 			f := kids[i]
 			p := fmt.Sprintf("%s/%d", path, i)
 			if path != "" && !pr.keep(path, i, len(kids)) { // the top-level wrapper field is always kept
+				if pr.add && len(private) < 2 {
+					// an unexported field that carries the dropped field's name in its json tag: still not a target
+					if ft, err := goTypeFor(nodeKids(f)[0], v, 1); err == nil {
+						private = append(private, reflect.StructField{Name: fmt.Sprintf("priv%d", i), PkgPath: "main", Type: ft, Tag: reflect.StructTag(fmt.Sprintf(`json:"%s"`, nodeStr(f, "name")))})
+					}
+				}
 				continue
 			}
 			ft, err := goTypeProjected(nodeKids(f)[0], v, pr, p, rngPerm)
@@ -67,6 +74,12 @@ func goTypeProjected(s node, v goVariant, pr projection, path string, rngPerm fu
 			fields = append([]reflect.StructField{{Name: "Extra0", Type: reflect.TypeOf(int64(0)), Tag: `json:"not_in_file0"`},
 				{Name: "Extra1", Type: reflect.TypeOf(""), Tag: `json:"not_in_file"`}}, fields...)
 			fields = append(fields, reflect.StructField{Name: "Extra2", Type: reflect.TypeOf([]int64(nil)), Tag: `json:"not_in_file2"`})
+			if len(fields) > 3 && path != "" {
+				// a private twin of a kept field, declared after it, with the same json name
+				kept := fields[2]
+				private = append(private, reflect.StructField{Name: "twin", PkgPath: "main", Type: kept.Type, Tag: kept.Tag})
+			}
+			fields = append(fields, private...)
 		}
 		return reflect.StructOf(fields), nil
 	case "array":
